@@ -43,7 +43,7 @@ def cases(draw, max_chroms=3, max_bins=6):
             "cols": draw(st.sampled_from([None, None, ["count"], ["count", "x"]])),
             "agg_count": draw(st.sampled_from(["sum", "sum", "sum", "max"])),
             "history": hist, "k2": draw(st.integers(2, 4)), "rows2": rows2,
-            "dest": draw(st.sampled_from(["", "::/c", "same-file"]))}
+            "dest": draw(st.sampled_from(["", "::/c", "same-file"])), "via": draw(st.sampled_from(["api", "api", "cli"]))}
 
 
 def _read(clr, cols):
@@ -80,8 +80,21 @@ def check_coarsen(case, ctx: Ctx):
             kw["columns"] = list(case["cols"])
         if case["agg_count"] != "sum":
             kw["agg"] = {"count": case["agg_count"]}
-        call(f"coarsen_cooler(k={k}, chunksize={case['chunksize']}, nproc={case['nproc']})", cooler.coarsen_cooler,
-             base, out_uri, k, case["chunksize"], nproc=case["nproc"], h5opts={"compression": None}, **kw)
+        if case.get("via") == "cli":
+            from ..cliutil import run_cli
+
+            args = ["coarsen", base, "-k", k, "-c", case["chunksize"], "-n", case["nproc"], "-o", out_uri]
+            if case["dest"] == "same-file":
+                args.append("-a")
+            if case["cols"] is not None or case["agg_count"] != "sum":
+                for c in cols:
+                    a = {"count": case["agg_count"], "x": "sum"}[c]
+                    args += ["--field", c + (f":agg={a}" if a != "sum" else "")]
+            rc, _, exc = run_cli(args)
+            check(rc == 0 and exc is None, f"cooler coarsen {args[2:]} failed: exit {rc} {exc!r}")
+        else:
+            call(f"coarsen_cooler(k={k}, chunksize={case['chunksize']}, nproc={case['nproc']})", cooler.coarsen_cooler,
+                 base, out_uri, k, case["chunksize"], nproc=case["nproc"], h5opts={"compression": None}, **kw)
         clr = cooler.Cooler(out_uri)
         want_bt = model.coarsen_bins(bt, k)
         got_bins = model.read_bins(clr)
@@ -143,7 +156,7 @@ def check_coarsen(case, ctx: Ctx):
     ctx.record(case, nt, ["coarsen", "hist=" + case["history"], f"nproc={case['nproc']}", "kinds=" + "+".join(sorted(set(bt["kinds"]))),
                           "empty" if not rows else "nonempty", "sym" if symmetric else "square",
                           "k>chrom" if any((len(e) - 1) < k for e in bt["edges"]) else "k<=chrom",
-                          "dest=" + (case["dest"] or "file"), "agg=" + case["agg_count"]])
+                          "dest=" + (case["dest"] or "file"), "agg=" + case["agg_count"], "via=" + case.get("via", "api")])
 
 
 CHECKS = {"coarsen": check_coarsen}
